@@ -1,6 +1,7 @@
 //! One module per property.
 use crate::engine::Check;
 
+pub mod c01;
 pub mod c02;
 pub mod c03;
 pub mod c04;
@@ -22,6 +23,7 @@ pub mod c19;
 
 pub fn all() -> Vec<Box<dyn Check>> {
 	vec![
+		Box::new(c01::C01),
 		Box::new(c02::C02),
 		Box::new(c03::C03),
 		Box::new(c04::C04),
